@@ -331,7 +331,7 @@ class AaRequest(Aa):
         AvpGenDef("port_limit", AVP_PORT_LIMIT),
         AvpGenDef("user_name", AVP_USER_NAME),
         AvpGenDef("user_password", AVP_USER_PASSWORD),
-        AvpGenDef("service_stype", AVP_SERVICE_TYPE),
+        AvpGenDef("service_type", AVP_SERVICE_TYPE),
         AvpGenDef("state", AVP_STATE),
         AvpGenDef("authorization_lifetime", AVP_AUTHORIZATION_LIFETIME),
         AvpGenDef("auth_grace_period", AVP_AUTH_GRACE_PERIOD),
